@@ -210,6 +210,24 @@ class Inliner:
     # ------------------------------------------------------------ callee resolution
     def _callee(self, caller: Any, call: ast.Call) -> Optional[Tuple[Any, Optional[ast.AST]]]:
         f = call.func
+        if isinstance(f, ast.Name):
+            # a module-level helper of the caller's own module with a name outside the vocabulary
+            if f.id in ANCHORS or f.id.startswith('__'):
+                return None
+            r0 = self.prog.resolve(caller.module, f.id)
+            if r0[0] != 'func' or r0[1].cls is not None or r0[1].module is not caller.module or r0[1].node is caller.node:
+                return None
+            fn0 = r0[1]
+            a0 = fn0.node.args
+            if fn0.node.decorator_list or a0.vararg or a0.kwarg or a0.kwonlyargs or a0.posonlyargs:
+                return None
+            if any(isinstance(n, (ast.Yield, ast.YieldFrom, ast.Global, ast.Nonlocal)) for n in ast.walk(fn0.node)):
+                return None
+            if any(isinstance(k, ast.keyword) and k.arg is None for k in call.keywords) or any(isinstance(x, ast.Starred) for x in call.args):
+                return None
+            # names the helper reads must mean the same thing at the call site: it lives in the same module, so module-level names do;
+            # its own locals are renamed by _bind
+            return fn0, None
         if not isinstance(f, ast.Attribute):
             return None
         name = f.attr
@@ -258,7 +276,7 @@ class Inliner:
         dmap = {params[len(params) - len(defaults) + i]: d for i, d in enumerate(defaults)}
         mapping: Dict[str, ast.AST] = {}
         pre: List[ast.stmt] = []
-        if not callee.is_static:
+        if callee.cls is not None and not callee.is_static:
             if not params:
                 return None
             mapping[params[0]] = ast.Name(id='self', ctx=ast.Load())
@@ -541,7 +559,7 @@ class Inliner:
 
     # ------------------------------------------------------------ entry
     def run(self) -> None:
-        funcs = [f for f in self.prog.functions.values() if f.cls is not None and f.module.name.startswith('proxy')]
+        funcs = [f for f in self.prog.functions.values() if f.module.name.startswith('proxy')]
         for f in funcs:
             f.orig_node = f.node
         for f in funcs:
